@@ -66,7 +66,7 @@ func budget(n int) int64 {
 }
 
 const (
-	cpuNetSeconds = 5      // CPU seconds (rusage) one case may use: net for loops that bypass both counters
+	cpuNetSeconds = 20     // CPU seconds (rusage) one case may use: net for loops that bypass both counters
 	heapNetBytes  = 2 << 30 // live heap one case may reach (an input is at most 64 KiB)
 	maxInput      = 64 << 10
 )
@@ -109,6 +109,7 @@ type wsummary struct {
 	MaxCPUID  string           `json:"max_cpu_id"`
 	ErrFrom   map[string]int   `json:"err_from"` // how diagnostics carried their position
 	Fam       map[string][]int `json:"fam"`      // family -> [cases, rejected-by-a-parser, accepted-by-both]
+	FamCPUms  map[string]float64 `json:"fam_cpu_ms"`
 	WholeRej  []string         `json:"whole_rej"` // unmodified corpus / generated texts that a parser entry point did not accept
 }
 
@@ -303,7 +304,7 @@ func isNilIface(x any) bool {
 }
 
 // positioned reports whether a rejected parse carries a position, and how.
-func positioned(ctl data.Control, lines int) (string, bool) {
+func positioned(ctl data.Control, lines int, path string) (string, bool) {
 	var from data.From
 	how := ""
 	if tv, ok := ctl.(*data.ThrowValue); ok && tv != nil {
@@ -319,6 +320,11 @@ func positioned(ctl data.Control, lines int) (string, bool) {
 	}
 	if isNilIface(from) {
 		return fmt.Sprintf("%s: control %T has a nil position", how, ctl), false
+	}
+	if from.GetSource() != path {
+		// raised inside the interpreter (e.g. by the Go implementation of an annotation) and
+		// positioned there: whether the location is the right one is C18's subject, not C01's
+		return how + "-elsewhere", true
 	}
 	line, col := from.GetStartPosition()
 	if line < 0 || col < 0 || line > lines+1 {
@@ -362,10 +368,11 @@ func runEntry(entry string, text []byte, dir string) (res eres, accepted bool, h
 		_, p := newVM()
 		var prog *node.Program
 		var ctl data.Control
+		path := filepath.Join(dir, "in.zy")
 		if entry == "parse" {
-			prog, ctl = p.ParseString(string(text), filepath.Join(dir, "in.zy"))
+			prog, ctl = p.ParseString(string(text), path)
 		} else {
-			path := filepath.Join(dir, "in.php")
+			path = filepath.Join(dir, "in.php")
 			if err := os.WriteFile(path, text, 0o644); err != nil {
 				res.Out, res.Msg = "skip", err.Error()
 				return
@@ -377,13 +384,13 @@ func runEntry(entry string, text []byte, dir string) (res eres, accepted bool, h
 			res.Out = "ok"
 			accepted = true
 		case prog == nil && !isNilIface(ctl):
-			h, ok := positioned(ctl, strings.Count(string(text), "\n")+1)
+			h, ok := positioned(ctl, strings.Count(string(text), "\n")+1, path)
 			if ok {
 				res.Out = "err"
 				how = h
 			} else {
 				res.Out = "badresult"
-				res.Kind = "unpositioned"
+				res.Kind = "unpositioned:" + msgSlug(ctl.AsString())
 				res.Msg = h + ": " + oneLine(ctl.AsString(), 120)
 			}
 		case prog == nil:
@@ -413,12 +420,36 @@ var (
 	netLogger *os.File
 )
 
+// procCPU is the CPU time (ns) consumed so far by the OS thread that runs the cases (the
+// worker locks its case loop to one thread): read from /proc so that the watchdog goroutine
+// can see it, and so that GC worker threads and a loaded machine do not inflate it.
+var caseTid atomic.Int64
+
 func procCPU() int64 {
+	tid := caseTid.Load()
+	if tid != 0 {
+		if b, err := os.ReadFile(fmt.Sprintf("/proc/self/task/%d/stat", tid)); err == nil {
+			// fields after the ")" that closes comm: state is field 3; utime, stime are 14, 15
+			if i := strings.LastIndexByte(string(b), ')'); i >= 0 {
+				f := strings.Fields(string(b[i+1:]))
+				if len(f) > 12 {
+					ut, _ := strconv.ParseInt(f[11], 10, 64)
+					st, _ := strconv.ParseInt(f[12], 10, 64)
+					return (ut + st) * int64(time.Second) / 100 // USER_HZ = 100
+				}
+			}
+		}
+	}
 	var ru syscall.Rusage
 	if syscall.Getrusage(syscall.RUSAGE_SELF, &ru) != nil {
 		return 0
 	}
 	return ru.Utime.Nano() + ru.Stime.Nano()
+}
+
+func lockCaseThread() {
+	runtime.LockOSThread()
+	caseTid.Store(int64(syscall.Gettid()))
 }
 
 // mainStack extracts the function list (outermost first) of the goroutine that runs the
@@ -432,7 +463,12 @@ func mainStack() []string {
 		}
 		var fns []string
 		lines := strings.Split(blk, "\n")
-		for i := 1; i+1 < len(lines); i += 2 {
+		for i := 1; i+1 < len(lines); i++ {
+			// a frame is a function line followed by a tab-indented location line; deep stacks
+			// carry an "...N frames elided..." line in the middle
+			if strings.HasPrefix(lines[i], "\t") || strings.HasPrefix(lines[i], "...") || !strings.HasPrefix(lines[i+1], "\t") {
+				continue
+			}
 			fn := strings.TrimSpace(lines[i])
 			loc := strings.TrimSpace(lines[i+1])
 			if j := strings.LastIndex(fn, "("); j > 0 {
@@ -526,6 +562,12 @@ func runCase(c cspec, text []byte, dir string) (o caseOut) {
 		if en == "lext" || en == "parsef" {
 			in = tt
 		}
+		if en == "parsef" && o.outcomes[2] == "steps" {
+			// the script-mode parse of this input already ran away; the template-mode parse of the
+			// same text would only burn the same budget again
+			o.outcomes[i] = "skip"
+			continue
+		}
 		r, acc, how := runEntry(en, in, dir)
 		o.outcomes[i] = r.Out
 		o.steps[i] = r.Steps
@@ -570,9 +612,10 @@ func workerMain(args []string) {
 	debug.SetMemoryLimit(3 << 30)
 	data.CompileMode = true
 	data.WriteOutput = func(string) {}
+	lockCaseThread()
 	go watchdog()
 
-	sum := wsummary{Summary: true, Outcomes: map[string]int{}, ErrFrom: map[string]int{}, Fam: map[string][]int{}}
+	sum := wsummary{Summary: true, Outcomes: map[string]int{}, ErrFrom: map[string]int{}, Fam: map[string][]int{}, FamCPUms: map[string]float64{}}
 	for i := start; i < len(j.Cases); i++ {
 		c := j.Cases[i]
 		text := materialise(j.Bases, c)
@@ -586,9 +629,11 @@ func workerMain(args []string) {
 		o := runCase(c, text, dir)
 		curCase.Store("")
 		fmt.Fprintf(logf, "END %d\n", i)
-		if ms := float64(procCPU()-caseCPU0.Load()) / 1e6; ms > sum.MaxCPUms {
+		ms := float64(procCPU()-caseCPU0.Load()) / 1e6
+		if ms > sum.MaxCPUms {
 			sum.MaxCPUms, sum.MaxCPUID = ms, c.ID
 		}
+		sum.FamCPUms[c.Fam] += ms
 
 		sum.Cases++
 		f := sum.Fam[c.Fam]
@@ -716,6 +761,7 @@ func oneMain(args []string) {
 	data.CompileMode = true
 	data.WriteOutput = func(string) {}
 	netOut, netLogger = os.Stdout, os.Stderr
+	lockCaseThread()
 	go watchdog()
 	caseCPU0.Store(procCPU())
 	curCase.Store(args[0])
@@ -748,4 +794,25 @@ func oneMain(args []string) {
 			}()
 		}
 	}
+}
+
+// msgSlug reduces a diagnostic text to a short stable identifier (letters only; quoted or
+// numeric detail varies with the input).
+func msgSlug(m string) string {
+	var sb strings.Builder
+	for _, r := range m {
+		switch {
+		case r == ' ' || r == ':' || r == '(' || r == ',':
+			if sb.Len() > 0 && !strings.HasSuffix(sb.String(), "-") {
+				sb.WriteByte('-')
+			}
+		case r >= '0' && r <= '9' || r == '\'' || r == '"':
+		case r > ' ':
+			sb.WriteRune(r)
+		}
+		if sb.Len() >= 48 {
+			break
+		}
+	}
+	return strings.Trim(sb.String(), "-")
 }
